@@ -444,7 +444,9 @@ func (w *world) judgeConnect(s, d int, st pbv2.Status, t0, t1 time.Duration, fau
 			w.o.Probe("no-reservation-" + m.whyNone(d))
 		}
 	case pbv2.Status_PERMISSION_DENIED:
-		if !relayed && !aclDeny && !faulted {
+		// in a batch a source that disconnects concurrently may have come back through R2 (X only)
+		relayedMaybe := relayed || (b != nil && b.gone[s] && w.cl[s].relayed)
+		if !relayedMaybe && !aclDeny && !faulted {
 			w.violate("C11/connect-denied-without-cause", "%s -> %s (direct connection, allowed by the ACL) got PERMISSION_DENIED", sn, dn)
 		}
 		if relayed {
